@@ -204,7 +204,8 @@ template <class D> static std::string validate_text(const std::string& s, int ma
     if (index < -1 || index >= numpoints) return "index-out-of-range";
     if (index >= 0) {
       long double lo[2], up[2]; long long ch[2];
-      for (int l = 0; l < 2; ++l) { if (!(is >> lo[l] >> up[l] >> ch[l])) return "unparsable-node";
+      auto rd = [&](long double& v) { std::string t; if (!(is >> t)) return false; char* e; v = std::strtold(t.c_str(), &e); return *e == 0 && e != t.c_str(); };   // also reads inf / nan
+      for (int l = 0; l < 2; ++l) { if (!(rd(lo[l]) && rd(up[l]) && (is >> ch[l]))) return "unparsable-node";
         if (ch[l] < -1 || ch[l] >= treesize) return "child-out-of-range";
         if (ch[l] >= i) return "child-not-before-parent"; }
       if (!(0 <= lo[0] && lo[0] <= up[0] && up[0] <= lo[1] && lo[1] <= up[1])) return "bounds-not-ordered";
